@@ -30,7 +30,6 @@ import (
 	"fmt"
 	"io"
 	"log/slog"
-	"net"
 	"sync"
 	"time"
 
@@ -223,10 +222,10 @@ func (h *Handler) ServeDNS(
 	if !useFallbacks {
 		resp, err = h.exchange(ctx, ups, req)
 
-		var netErr net.Error
-		// Network error means that something is wrong with the upstream, we
-		// definitely should use the fallback.
-		useFallbacks = err != nil && errors.As(err, &netErr)
+		// Network error, including a connection closed by the upstream, means
+		// that something is wrong with the upstream, we definitely should use
+		// the fallback.
+		useFallbacks = isExpectedConnErr(err)
 	}
 
 	if useFallbacks && len(h.fallbacks) > 0 {
